@@ -164,6 +164,10 @@ theorem workDone_inv (sc : Script) (s : State) (hi : SInv s) : SInv (workDone sc
   unfold workDone
   exact workDoneLoop_inv _ _ _ (SInv.of_sig (s := s) rfl hi)
 
+theorem ringDone_inv (sc : Script) (cq : List Nat) (s : State) (hi : SInv s) : SInv (ringDone sc cq s) := by
+  unfold ringDone
+  exact workDoneLoop_inv _ _ _ (SInv.of_sig (s := s) (ringTake_frame sig (fun _ _ _ => rfl) s cq) hi)
+
 theorem asyncIoLoop_inv (sc : Script) (fuel : Nat) (s : State) (hi : SInv s) : SInv (asyncIoLoop sc fuel s) := by
   induction fuel generalizing s with
   | zero => exact hi
@@ -221,6 +225,9 @@ theorem dispatchLoop_inv (sc : Script) (fuel : Nat) (s : State) (n : Nat) (sg : 
             · apply pollIo_inv; exact h0 _
             · apply udpIo_inv; exact h0 _
             · exact h0 _
+      · split
+        · apply ih; apply ringDone_inv; exact h0 _
+        · apply ih; exact h0 _
 
 theorem pollLoop_inv (sc : Script) (fuel : Nat) (s : State) (c : PollCtl) (hi : SInv s) : SInv (pollLoop sc fuel s c) := by
   induction fuel generalizing s c with
